@@ -393,6 +393,10 @@ def run(ctx):
                 cases.append({'kind': 'ledger', 'd': d, 'G': G, 'grid': 'D', 'seed': seed, 'nus': nuB, 'gammas': sel[1][0], 'hs': sel[1][1],
                               'theta0': 1.5, 'tf': 1e-3, 'steps': 3, 'frozen': frozen, 'nomut': None, 'mig': mig, 'units': (0, chunk),
                               'delj': delj, 'layout': layout})
+            if d <= 3 and any(frozen):
+                # interior grid points within 1e-6 of the end points (any default grid of 600+ points has them): they are interior
+                cases.append({'kind': 'ledger', 'd': d, 'G': G, 'grid': 'N', 'seed': seed, 'nus': nuB, 'gammas': sel[1][0], 'hs': sel[1][1],
+                              'theta0': 1.5, 'tf': 1e-3, 'steps': 3, 'frozen': frozen, 'nomut': None, 'mig': mig, 'units': (0, chunk)})
             if not all(frozen):
                 # sizes that change in time: the drivers re-size the step from the current sizes at every step
                 cases.append({'kind': 'ledger', 'd': d, 'G': G, 'grid': 'D', 'seed': seed, 'nus': nuA, 'gammas': sel[1][0], 'hs': sel[1][1],
